@@ -218,6 +218,8 @@ theorem Mgr.init_finv (st : Store) (b : BindSet) : FInv (Mgr.init st b).2.1.trie
   | none => exact finv_nil
   | core => exact bindAll_finv false _ st Mgr.empty finv_nil
   | rdflib => exact bindAll_finv false _ st Mgr.empty finv_nil
+  | cc => exact finv_nil
+  | unknown => exact finv_nil
 
 theorem getQNames_finv : ∀ (d : List (Str × Bool)) (st : Store) (m : Mgr),
     FInv m.trie → FInv (getQNames d st m).2.trie
@@ -225,6 +227,31 @@ theorem getQNames_finv : ∀ (d : List (Str × Bool)) (st : Store) (m : Mgr),
   | (u, g) :: r, st, m, h => by
     simp only [getQNames]
     exact getQNames_finv r (Mgr.computeQname st m u g).1 (Mgr.computeQname st m u g).2.1 (computeQname_finv h st u g)
+
+theorem strictSeq_finv : ∀ (us : List Str) (st : Store) (m : Mgr) (acc : List QN),
+    FInv m.trie → FInv (strictSeq us st m acc).2.1.trie
+  | [], _, _, _, h => h
+  | u :: r, st, m, acc, h => by
+    have h0 := computeQnameStrict_finv h st u true
+    simp only [strictSeq]
+    split
+    · exact h0
+    · next a _ =>
+      exact strictSeq_finv r (Mgr.computeQnameStrict st m u true).1 (Mgr.computeQnameStrict st m u true).2.1 (acc ++ [a]) h0
+
+theorem serXml_finv (preds stmts : List Str) (st : Store) (m : Mgr) (h : FInv m.trie) :
+    FInv (serXml preds stmts st m).2.1.trie := by
+  have h1 := strictSeq_finv preds st m [] h
+  have h2 := strictSeq_finv stmts (strictSeq preds st m []).1 (strictSeq preds st m []).2.1 [] h1
+  unfold serXml
+  simp only
+  split
+  · exact h1
+  · split
+    · exact h1
+    · split
+      · exact h2
+      · exact h2
 
 theorem reset_finv (st : Store) (m : Mgr) : FInv (Mgr.reset st m).trie := by
   unfold Mgr.reset
@@ -249,7 +276,13 @@ theorem TInv.put {s : St} (h : TInv s) (i : Bool) {r : Store × Mgr} (hr : FInv 
 
 theorem TInv.step {s : St} (h : TInv s) (op : Op) : TInv (s.step op).1 := by
   cases op with
-  | minit i b => exact h.put i (Mgr.init_finv _ b)
+  | minit i b =>
+    simp only [St.step]
+    split
+    · exact h
+    · exact h.put i (Mgr.init_finv _ b)
+  | sertrig fb cs => exact ⟨reset_finv _ _, reset_finv _ _⟩
+  | serxml i preds stmts => exact h.put i (serXml_finv preds stmts _ _ (h.mgr i))
   | bind i p n ov rp => exact h.put i (Mgr.bind_finv (h.mgr i) _ p n ov rp)
   | sbind p n ov =>
     simp only [St.step]
